@@ -23,7 +23,8 @@ BASES = [("int", int, ["7", 3, "x"]), ("When", datetime.date, ["2020-01-02", 864
          ("Point", tp.Point, [{"x": "1", "y": "2.5"}, '{"x": 3}', {"y": 1}]),
          ("Optional[int]", typing.Optional[int], [None, "5", "q"]),
          ("Literal['r','w']", typing.Literal["r", "w"], ["r", b"w", "x"]),
-         ("bytes", bytes, [b"raw \xff bytes", "text", 7])]
+         ("bytes", bytes, [b"raw \xff bytes", "text", 7]),
+         ("NoneType", type(None), [None, "x", 0]), ("None", None, [None, "x", 0])]
 globals()["Point"] = tp.Point
 
 
@@ -83,6 +84,7 @@ def positions(W, name):
         yield "dict value", (lambda t: dict[str, t]), (lambda x: {"k": x})
         yield "tuple member", (lambda t: tuple[int, t]), (lambda x: [1, x])
         yield "union member", (lambda t: typing.Union[t, None]), (lambda x: x)
+        yield "union member after str", (lambda t: typing.Union[str, t]), (lambda x: x)
 
 
 def search(stop_at=1, max_len=2):
